@@ -449,7 +449,7 @@ func (o *c15Oracle) entryChecks(prefix, kind string, e c15Codec) {
 				break
 			}
 		}
-		o.violation(prefix+"negotiated-unmatched-locally:"+reason+":"+strings.ToLower(e.Mime),
+		o.violation(prefix+"negotiated-unmatched-locally:"+reason,
 			fmt.Sprintf("%s codec %s in use but no locally registered codec has its mime/clock/channels (local: %v)", kind, e, o.local[kind]),
 			map[string]any{"entry": e})
 
@@ -613,8 +613,8 @@ func (o *c15Oracle) afterRemote(me *MediaEngine, text string) { //nolint:gocogni
 					} else {
 						witness = append(witness, w)
 					}
-					if !(cs <= c15Partial && exactLenient) {
-						allBadLenient = false
+					if !(cs <= c15Partial && exactLenient) || cl == c15None {
+						allBadLenient = false // cl == none: not matched at all, reported by entryChecks
 					}
 				}
 				switch {
@@ -785,14 +785,17 @@ func c15Const(xs ...string) func(r *kit.Rand) string {
 
 func c15H264Fmtp(r *kit.Rand) string {
 	var parts []string
-	switch r.Intn(12) {
+	switch r.Intn(24) {
 	case 0: // absent
-	case 1, 2, 3, 4:
+	case 1, 2, 3, 4, 5, 6, 7, 8:
 		parts = append(parts, "packetization-mode=0")
 	default:
 		parts = append(parts, "packetization-mode=1")
 	}
-	pl := kit.Pick(r, []string{"42001f", "42e01f", "4d001f", "64001f", "42e034", "640c1f", "42001f", "42e01f", "42E01F", "", "42", "4d0032"})
+	pl := kit.Pick(r, []string{
+		"42001f", "42e01f", "4d001f", "64001f", "42e034", "640c1f", "42001f", "42e01f", "42E01F", "4d0032", "42001f", "42e01f", "4d001f", "64001f",
+		"42e01f", "640c1f", "42001f", "42e01f", "4d001f", "640032", "", "42",
+	})
 	if pl != "" {
 		parts = append(parts, "profile-level-id="+pl)
 	}
@@ -928,6 +931,16 @@ func c15Register(r *kit.Rand) *MediaEngine { //nolint:cyclop
 			cp := RTPCodecParameters{PayloadType: PayloadType(pt)}
 			cp.MimeType = kind + "/" + name
 			cp.ClockRate, cp.Channels, cp.SDPFmtpLine = t.clock, t.ch, t.fmtps(r)
+			if t.name == "H264" && r.Chance(0.7) {
+				// mostly register H264 with both identifying parameters present (the statement decides those)
+				for try := 0; try < 8; try++ {
+					p, _ := c15ParseFmtp(cp.SDPFmtpLine)
+					if _, ok := p["packetization-mode"]; ok && c15IsHex6(p["profile-level-id"]) {
+						break
+					}
+					cp.SDPFmtpLine = t.fmtps(r)
+				}
+			}
 			defaultable := kind == "video" || t.name == "opus" || t.name == "PCMU" || t.name == "PCMA"
 			if defaultable && r.Chance(0.15) {
 				cp.ClockRate = 0
@@ -1452,21 +1465,21 @@ func TestVerifC15(t *testing.T) { //nolint:gocognit,cyclop,gocyclo,maintidx
 	run := kit.Start(t, "C15", "seeded random local MediaEngine registrations (arbitrary payload types, mime case, omitted clock/channels, H264/VP9/AV1/"+
 		"generic fmtp variants, RTX with apt, feedback subsets; 1/8 default codecs) × 1-3 successive remote descriptions of 1-4 audio/video sections "+
 		"whose codec lists are derived from the local ones (copies, fmtp/clock/channel/case mutations, unknown codecs, RTX before/after its primary, "+
-		"remote payload types equal to / colliding with / different from local ones), multi-codec negotiation on/off; 3/4 of the cases drive "+
-		"MediaEngine.updateFromRemoteDescription directly, 1/4 go through PeerConnection.SetRemoteDescription (as answerer and as offerer). "+
+		"remote payload types equal to / colliding with / different from local ones), multi-codec negotiation on/off; 2/3 of the cases drive "+
+		"MediaEngine.updateFromRemoteDescription directly, 1/3 go through PeerConnection.SetRemoteDescription (as answerer and as offerer). "+
 		"A case is non-trivial when at least one codec was negotiated under a payload type that no matching local codec is registered on; "+
 		"distinct by local registrations + remote description texts")
 	defer run.Finish()
 	run.Assume("the locally registered codec lists are read back from MediaEngine.videoCodecs/audioCodecs after RegisterCodec (input, not behaviour under test)")
 	run.Assume("TrackRemote.Codec() and the payload type on sent RTP are not observed (no media flows); the negotiated set is observed white-box and through GetParameters")
 
-	n := kit.N(2400, 60000)
+	n := kit.N(3000, 75000)
 	run.Parallel(n, 8, func(i int) {
 		r := run.CaseRand(i)
 		me := c15Register(r)
 		multi := r.Chance(0.6)
 		mode := "direct"
-		if i%4 == 3 {
+		if i%3 == 2 {
 			mode = "pc-answerer"
 			if r.Chance(0.4) {
 				mode = "pc-offerer"
